@@ -834,6 +834,9 @@ func pfHelperCase(g *pfGen, kind string) (op, obs string, tags []string) {
 		var dtags []string
 		if g.epoch >= 4 && g.chance(35) {
 			p2, d := g.decorate("tools/call", string(params), ps, "t", []string{"args", "args", "argkey", "argkey", "name"})
+			if kind == "vph" && g.chance(15) {
+				p2, d = g.decorate("tools/call", string(params), ps, "t", []string{"argsdup"})
+			}
 			params = json.RawMessage(p2)
 			hdrSrc = params
 			dtags = d.tags
@@ -1152,7 +1155,7 @@ func (g *pfGen) decorate(method, params string, schema []*pfProp, toolName strin
 			if idKey != "" {
 				elig = append(elig, k)
 			}
-		case "args", "argkey":
+		case "args", "argkey", "argsdup":
 			if method == "tools/call" {
 				elig = append(elig, k)
 			}
@@ -1215,6 +1218,39 @@ func (g *pfGen) decorate(method, params string, schema []*pfProp, toolName strin
 		at, where := g.position(idx, len(ms))
 		ms = pfInsertMember(ms, at, pfMember{key, raw})
 		d.tags = []string{"decoy-arguments", "decoy-arguments-" + where}
+	case "argsdup":
+		// a second member called exactly `arguments`: the dispatcher (a json.RawMessage field) keeps the last one
+		idx := pfLastMember(ms, "arguments")
+		if idx < 0 || !strings.HasPrefix(ms[idx].raw, "{") {
+			return params, pfDecoy{}
+		}
+		var raw string
+		switch r := g.rng.Intn(100); {
+		case r < 70:
+			raw = g.args(schema, true).json()
+		case r < 85:
+			raw = "{}"
+		case r < 93:
+			raw = "null"
+		default:
+			raw = `"str"`
+		}
+		at, where := g.position(idx, len(ms))
+		// what a peer aiming at a decoder that MERGES repeated members would mirror: all entries of both
+		if a, ok := pfSplitMembers(ms[idx].raw); ok {
+			if b, ok := pfSplitMembers(raw); ok {
+				merged := append(append([]pfMember(nil), a...), b...)
+				if where == "before" {
+					merged = append(append([]pfMember(nil), b...), a...)
+				}
+				sw := append([]pfMember(nil), ms...)
+				sw[idx] = pfMember{"arguments", pfJoinMembers(merged)}
+				d.params = pfJoinMembers(sw)
+			}
+		}
+		ms = pfInsertMember(ms, at, pfMember{"arguments", raw})
+		d.kind = "args"
+		d.tags = []string{"decoy-arguments-exactdup", "decoy-arguments-exactdup-" + where}
 	case "argkey":
 		idx := pfLastMember(ms, "arguments")
 		if idx < 0 {
@@ -1554,7 +1590,7 @@ func (g *pfGen) message(c *pfHTTPCase, method string, id int, withID bool, meta 
 	}
 	c.decoy = pfDecoy{}
 	if g.epoch >= 4 && strings.HasPrefix(params, "{") && g.chance(24) {
-		kinds := []string{"name", "name", "name", "name", "args", "argkey", "meta", "metakey", "metakey"}
+		kinds := []string{"name", "name", "name", "name", "args", "argkey", "argsdup", "meta", "metakey", "metakey"}
 		if method != "tools/call" && method != "TOOLS/CALL" && method != "prompts/get" && method != "resources/read" {
 			kinds = []string{"meta", "metakey", "metakey", "stray"}
 		}
@@ -1758,10 +1794,15 @@ func (g *pfGen) httpCase() *pfHTTPCase {
 			}
 		}
 	}
+	// epoch 4: StreamableHTTPOptions.JSONResponse is a dimension of the configuration, not only a perturbation
+	if g.epoch >= 4 && c.kind != "sse" && g.chance(18) {
+		c.jsonResp = true
+		c.decoyTags = append(c.decoyTags, "cfg-json-response")
+	}
 	// epoch 4: the base message carries a decoy member: the headers sometimes mirror the DECOY (what a peer would send
 	// to make an intermediary route on one value and the server act on another)
 	if d := c.decoy; d.kind != "" {
-		c.decoyTags = d.tags
+		c.decoyTags = append(c.decoyTags, d.tags...)
 		if g.chance(55) {
 			aligned := false
 			switch {
